@@ -317,7 +317,7 @@ def gen_cases(ctx: Ctx):
             cases.append(one("numpy", "zero", up, shape))
             if up in (1, 3, 4, 16):
                 cases.append(one("torch", "zero", up, shape))
-    n = ctx.budget(220, 4500)
+    n = ctx.budget(220, 9000)
     for _ in range(n):
         est = r.choice(["numpy", "numpy", "torch"])
         kind = r.choice(["int", "int", "sub", "sub", "sub", "half-size", "zero", "wrap"])
@@ -574,7 +574,7 @@ def gen_corr_cases(ctx: Ctx):
             add("numpy", "bl", kind, up, ms=True)
             cases[-1]["ms"] = math.floor((admit_radius(cases[-1]) + 0.25) * 1024 + 1) / 1024.0
             cases[-1]["ms_kind"] = "tight"
-    for _ in range(ctx.budget(32, 420)):
+    for _ in range(ctx.budget(32, 800)):
         est = r.choice(["numpy", "torch"])
         kind = r.choice(["int", "int", "sub", "sub", "zero"])
         add(est, "int" if (kind != "sub" and r.random() < 0.7) else "bl", kind, r.choice(ups_val),
